@@ -61,6 +61,23 @@ def seeds_table():
     return "\n".join(rows)
 
 
+def rounds():
+    r = {}
+    for d in sorted(glob.glob(os.path.join(V, "seeded", "*"))):
+        mf = os.path.join(d, "meta.json")
+        if not os.path.exists(mf):
+            continue
+        m = json.load(open(mf))
+        n = os.path.basename(d)
+        rd = (int(n.split("-m")[1]) + 1) // 2
+        miss = bool(m.get("closed_after_strengthening")) or not m.get("coordinator_confirmation", {}).get("caught")
+        r.setdefault(rd, [[], []])[0 if miss else 1].append(n)
+    rows = []
+    for rd in sorted(r):
+        rows.append("* round %d: %d of %d missed on the first run%s" % (rd, len(r[rd][0]), len(r[rd][0]) + len(r[rd][1]), (" (" + ", ".join(r[rd][0]) + ")") if r[rd][0] else ""))
+    return "\n".join(rows)
+
+
 def findings():
     rows = []
     for l in open(os.path.join(V, "known_findings.txt")):
@@ -73,7 +90,7 @@ def findings():
 def main():
     p = os.path.join(V, "DESIGN.md")
     s = open(p).read()
-    for tag, fn in (("PROPS", props_table), ("THEOREMS", theorem_list), ("SEEDS", seeds_table), ("FINDINGS", findings)):
+    for tag, fn in (("PROPS", props_table), ("THEOREMS", theorem_list), ("SEEDS", seeds_table), ("ROUNDS", rounds), ("FINDINGS", findings)):
         a, b = "<!-- AUTO:%s -->" % tag, "<!-- /AUTO:%s -->" % tag
         if a in s and b in s:
             i, j = s.index(a) + len(a), s.index(b)
